@@ -559,4 +559,11 @@ def run(ctx, prog):
     lm11 = _LM11(prog)
     n11 = _C09.alloc_to_apply(ctx, prog, lm11, 'C01.R11')
     ctx.floor('C01.R11', 'next_wal_seq.fetch_add sites', n11, 5, 'insert ×2, delete, update_metadata, batch_delete')
+    # ------------------------------------------------------------------ R12 the snapshot claims no number that is still to be handed out
+    ctx.rule('C01.R12', 'an acknowledged write is never numbered at or below what a snapshot already claims, and never shares its number with another entry (same rule as '
+                        'C02.R9): fetch_add(n) numbers exactly n entries, with the returned pre-increment value, so the counter is the NEXT number; create_snapshot records '
+                        'next_wal_seq.load() − c, c ≥ 1, in the snapshot, the MANIFEST and the compaction boundary. Otherwise the write acknowledged right after a snapshot is '
+                        'skipped as "covered" at the next start-up')
+    n12 = _c02.seq_accounting(ctx, prog, 'C01.R12')
+    ctx.floor('C01.R12', 'next_wal_seq.fetch_add sites', n12, 5, 'insert ×2, delete, update_metadata, batch_delete')
     ctx.stat('functions_analysed', len(set(i['key'].split(' | ')[1] for i in ctx.instances)))
